@@ -72,7 +72,7 @@ func TestC17(t *testing.T) {
 		cat = append(cat, c17case{BackoffStop: "none", InFlight: -1, How: how, InformerPoll: true})
 		cat = append(cat, c17case{BackoffStop: "at-expiry", InFlight: 1, How: how, InformerPoll: true})
 	}
-	reps := e.Pick(6, 120)
+	reps := e.Pick(6, 600)
 	n := len(cat) * reps
 	vlib.RunCases(t, "C17", "stop", n, func(c *vlib.Case) vlib.Result {
 		var res vlib.Result
